@@ -80,6 +80,11 @@ func init() {
 		RequirePositive: "cmp:", RequireCount: 10,
 	})
 	reg(&propCfg{
+		ID: "C12", Level: "fault_enumeration", Race: "both",
+		Rule: "the real asset.Sync runs between an in-memory source and in-memory / file-system / SQL targets wrapped by a recording, fault-injecting, yielding repository wrapper. Fault enumeration: for scenarios with 1-4 assets ALL subsets of assets whose source read fails x ALL subsets whose target append fails are run (plus assets missing from the source); random scenarios with up to 12 assets, source histories of 0-20 days, target = arbitrary prefix (empty, absent, header-only), explicit asset list or taken from the target, workers 1/2/4/8. Oracles per run: final target state == previous snapshots + exactly the source snapshots dated after the last date (or on/after the default start), in order, no duplicates; error returned iff a failure was injected/expected; assets outside the fault sets fully synchronised; an immediate second run changes nothing; results equal for 1/2/4/8 workers; the recorded call/return history of the target (logical clock) is checked by porcupine against the map-of-ordered-lists model, partitioned by asset; the race phase repeats the multi-worker runs in a -race build. distinct_nontrivial counts (scenario, fault subsets) runs.",
+		Shards: [2]int{16, 16}, MinEvals: [2]int{30, 300},
+	})
+	reg(&propCfg{
 		ID: "C07", Level: "exploration",
 		Rule: "the real And/Or/Majority/Split/Inverse/NoLoss/StopLoss combinators (and nestings NoLoss(StopLoss), StopLoss(NoLoss), Inverse(NoLoss), NoLoss(Inverse), NoLoss(And)) wrap scripted stub strategies that replay chosen action words; the output is compared with slice models of the specified combination (votes over position-wise DENORMALISED words, split rule, swap, explicit no-loss / stop-loss state machines over (action, close)) and, independently, with two trace safety monitors (no Sell at a close not above the preceding Buy's close; a Sell at the first close <= buy*(1-pct)). Exhaustive: all tuples of k words of length n for k=1 (n<=7), k=2 (n<=4), k=3 (n<=2 quick / n<=3 thorough) x 4 closing series x 3 percentages where relevant; plus random words up to length 200 with up to 6 sub-strategies. MACD-RSI is compared with the agreement rule over its own two real sub-strategies. distinct_nontrivial counts distinct (shape, word tuple) cases with n >= 2.",
 		Exhaustive: "all k-tuples of action words over {Sell,Hold,Buy}: k=1 n<=7, k=2 n<=4, k=3 n<=2 (quick) / n<=3 (thorough), for every combinator shape",
